@@ -209,7 +209,17 @@ def build(repo):
                ensures=['g = 2 J^T r with r = model_const + J xopt (Gauss-Newton assembly; the convention is sum of squares, no factor 1/2):: '
                         'result[0] == twice(matvec(transp(self.model_jac), vadd(self.model_const, matvec(self.model_jac, self.xopt()))))',
                         'H = 2 J^T J:: result[1] == twice(matvec(transp(self.model_jac), self.model_jac))'])
-    D.verify_list = ['Model.build_full_model', 'Model.__init__', 'Model.factorise_geom_system', 'Model.interpolate_mini_models_svd', 'Model.change_point', 'Model.swap_points', 'Model.add_new_sample', 'Model.add_new_point', 'Model.shift_base',
+    # ------------------------------------------------------------------ xpt_directions: the directions the interpolation system is built from are those of the CLIPPED stored points
+    D.contract('Model.xpt_directions', tags=['C16'], params={'include_kopt': 'bool'},
+               requires=['INV_model(self)'], modifies=[], result='arr:V',
+               loops={'for:k#0': [('rows written so far are the directions of the clipped stored points from the clipped incumbent:: '
+                                   'forall(j, 0, k, implies(include_kopt or j != self.kopt, dirns[j if (include_kopt or j < self.kopt) else j - 1] == '
+                                   'vsub(np.minimum(np.maximum(self.sl, self.points[j]), self.su), np.minimum(np.maximum(self.sl, self.points[self.kopt]), self.su))))', 'C16')]},
+               ensures=[('(C16) every direction handed to the interpolation system is xpt(k) - xopt with BOTH points clipped to the bounds exactly as when they were evaluated '
+                         '(a stored step that overshoots a bound is not used raw: the fit goes through the points that were really evaluated):: '
+                         'forall(j, 0, self.npt(), implies(include_kopt or j != self.kopt, result[j if (include_kopt or j < self.kopt) else j - 1] == '
+                         'vsub(np.minimum(np.maximum(self.sl, self.points[j]), self.su), np.minimum(np.maximum(self.sl, self.points[self.kopt]), self.su))))', 'C16')])
+    D.verify_list = ['Model.xpt_directions', 'Model.build_full_model', 'Model.__init__', 'Model.factorise_geom_system', 'Model.interpolate_mini_models_svd', 'Model.change_point', 'Model.swap_points', 'Model.add_new_sample', 'Model.add_new_point', 'Model.shift_base',
                      'Model.save_point', 'Model.get_final_results']
     return D
 
@@ -276,4 +286,45 @@ def extra_obligations(repo, D, pid):
                             bad.append('%s is a view of %s, which the same statement writes through %s' % (ast.unparse(v), base, ast.unparse(t)))
             obs.append(Ob('%s/fresh[tuple assignment #%d reads no view of an array it also writes (arrays by value)]' % (qual, k), 'fresh', qual, ['C17', 'C03'], [],
                           z3.BoolVal(not bad), n.lineno, 'unsat', {'syntactic': True, 'why': '; '.join(bad[:2])}))
+    obs += guarded_fit_obligation(repo)
     return obs
+
+
+def guarded_fit_obligation(repo):
+    """(C08) the one linear solve whose right-hand side is EVALUATION DATA (the residual fit in Model.interpolate_mini_models_svd) sits inside a try block whose handlers catch both
+    LinAlgError and ValueError and return the failure flag: SciPy's finiteness check raises ValueError on an inf / NaN residual, and that must become the documented
+    linear-algebra exit, not an exception out of solve.  Syntactic (exception frame of the function)."""
+    import ast, z3
+    from pyvc.core import Ob
+    fi = repo.func('Model.interpolate_mini_models_svd')
+    out = []
+    if fi is None:
+        return out
+    sites, bad = 0, []
+    for t in ast.walk(fi.node):
+        if not isinstance(t, ast.Try):
+            continue
+        calls = [c for b in t.body for c in ast.walk(b) if isinstance(c, ast.Call) and isinstance(c.func, ast.Attribute) and c.func.attr == 'solve_geom_system']
+        if not calls:
+            continue
+        sites += len(calls)
+        caught = set()
+        for h in t.handlers:
+            names = [h.type] if h.type is not None and not isinstance(h.type, ast.Tuple) else (list(h.type.elts) if h.type is not None else [])
+            returns = any(isinstance(x, ast.Return) for b in h.body for x in ast.walk(b)) and not any(isinstance(x, ast.Raise) for b in h.body for x in ast.walk(b))
+            for nm in names:
+                if returns:
+                    caught.add(ast.unparse(nm).split('.')[-1])
+            if h.type is None and returns:
+                caught |= {'LinAlgError', 'ValueError'}
+        if 'Exception' in caught:
+            caught |= {'LinAlgError', 'ValueError'}
+        for need in ('LinAlgError', 'ValueError'):
+            if need not in caught:
+                bad.append('the try around solve_geom_system at line %d has no returning handler for %s' % (calls[0].lineno, need))
+    total = sum(1 for c in ast.walk(fi.node) if isinstance(c, ast.Call) and isinstance(c.func, ast.Attribute) and c.func.attr == 'solve_geom_system')
+    if total != sites:
+        bad.append('%d call(s) of solve_geom_system outside any try block' % (total - sites))
+    out.append(Ob('Model.interpolate_mini_models_svd/frame[(C08) the fit of the evaluation data is guarded: LinAlgError and ValueError (inf / NaN data) become the failure flag, not an exception]',
+                  'frame', 'Model.interpolate_mini_models_svd', ['C08'], [], z3.BoolVal(not bad and total > 0), fi.span[0], 'unsat', {'syntactic': True, 'why': '; '.join(bad)}))
+    return out
